@@ -231,6 +231,20 @@ fn value_pool(names: &[&str]) -> Vec<String> {
     for w in [";", "|", "&& ", "( ", ")", "> ", "x >", "2>x ", "\n", "; ", "v=1 ", ";;", "x |"] {
         v.push(w.into());
     }
+    // non-ASCII material: 2-, 3- and 4-byte characters (byte length != character length), with and
+    // without a trailing blank, also as the only content before the blank
+    // values whose final blank is quoted: the rule looks at the value's text, not at its tokens
+    for w in ["x\\ ", "'x ' ", "\\ "] {
+        v.push(w.into());
+    }
+    for w in ["é", "é ", "あ ", "😀 ", "x é ", "é x ", "あ😀 ", "éé", "x あ", "'é' ", "😀"] {
+        v.push(w.into());
+    }
+    for n in names.iter().take(2) {
+        v.push(format!("{n} é "));
+        v.push(format!("é {n} "));
+        v.push(format!("😀 {n}"));
+    }
     // two-token values mentioning names
     for n in names.iter().take(2) {
         v.push(format!("x {n}"));
@@ -335,6 +349,11 @@ const LINES: &[&str] = &[
     "{0} {1} \\\n\\\n {2} {3}",
     "{0}\n\n{1} # {2}",
     "{0} <{1}",
+    "{0} é {1}",
+    "é {0} {1}",
+    "{0} あ😀 {1} \\\n {2}",
+    "{0} {1}é {2}",
+    "é=1 {0} > 😀 {1}",
 ];
 
 fn render(tpl: &str, ns: &[&str]) -> String {
@@ -505,6 +524,39 @@ fn main() {
         }
         for l in kw_lines.iter() {
             let ns: Vec<&str> = (0..4).map(|_| *r.pick(names)).collect();
+            out(&t, &render(l, &ns));
+        }
+    }
+
+    // (4) non-ASCII alias names and values: the blank rule and the recursion guard with byte length !=
+    // character length
+    let u_names = ["é", "あ", "😀", "a", "b"];
+    let u_values = ["é ", "あ ", "😀 ", "x é ", "é", "b ", "a ", "😀 é ", "", "x", "é あ ", "b", "a"];
+    let u_lines = [
+        "{0} {1}",
+        "{0} {1} {2}",
+        "x {0} {1}",
+        "{0} \\\n {1} {2}",
+        "{0}; {1} {2} {3}",
+        "{0} > {1} {2}",
+        "if {0} {1}; then {2}; fi",
+        "é {0} あ {1} 😀 {2}",
+        "{0}{1} {2}",
+        "'{0}' {1} {2}",
+    ];
+    let nu = if o.thorough() { 4000 } else { 150 };
+    for _ in 0..nu {
+        let mut r = rng.fork();
+        let mut t = vec![];
+        for n in u_names.iter() {
+            if r.chance(1, 6) {
+                continue;
+            }
+            let value = if r.chance(3, 4) { r.pick(&u_values).to_string() } else { r.pick(&pool).clone() };
+            t.push(Entry { name: n.to_string(), global: r.chance(1, 8), value });
+        }
+        for l in u_lines.iter() {
+            let ns: Vec<&str> = (0..4).map(|_| *r.pick(&u_names)).collect();
             out(&t, &render(l, &ns));
         }
     }
